@@ -101,18 +101,18 @@ fn stair_space(n: usize, salt: u64) -> ParamSpec {
 pub struct C07;
 
 const C07_RATIOS: [f64; 5] = [0.25, 0.5, 1.0, 2.0, 4.0];
-const C07_KTS: [f64; 3] = [1e-3, 0.1, 5.0];
+const C07_KTS: [f64; 5] = [1e-3, 0.1, 5.0, 1e-20, 1e6];
 
 fn c07_stat_scenarios(tier: Tier) -> u64 {
     match tier {
-        Tier::Quick => 15,
-        Tier::Thorough => 15 * 8,
+        Tier::Quick => 25,
+        Tier::Thorough => 25 * 6,
     }
 }
 
 impl C07 {
     fn gen_stat(&self, rng: &mut Rng, tier: Tier, i: u64) -> J {
-        let g = (i % 15) as usize;
+        let g = (i % 25) as usize;
         let ratio = C07_RATIOS[g % 5];
         let kt = C07_KTS[g / 5];
         let steps = 1000u64;
@@ -207,7 +207,7 @@ impl C07 {
 
     fn gen_det(&self, rng: &mut Rng, tier: Tier) -> J {
         let ps = gen_params(rng, &[(1, 1), (2, 3), (3, 3), (6, 3), (64, 1)]);
-        let ls = gen_land_general(rng);
+        let ls = gen_land_general(rng, false);
         let mut cfg = gen_cfg(rng, tier, false);
         // temperature must be known by construction: constant (cooling factor 1) or a single loop
         if rng.chance(0.7) {
@@ -277,7 +277,7 @@ impl Check for C07 {
         "C07"
     }
     fn rule(&self) -> String {
-        "scenario i < S: frequency scenario = one (d/kT, kT) grid point of {0.25,0.5,1,2,4} x {1e-3,0.1,5}, staircase landscape with n = 4000 parameters, optimiser runs with consecutive seeds pooled until the trial target is reached (quick 5e4, thorough 1.5e6 per scenario); scenario i >= S: one clause run on a general landscape with a temperature that is constant by construction. Non-trivial: (frequency) both accepted and rejected downhill trials observed; (clause) accepted and rejected moves, or invalid/clamped proposals. Distinct: distinct history hashes (frequency: hash over all pooled runs).".into()
+        "scenario i < S: frequency scenario = one (d/kT, kT) grid point of {0.25,0.5,1,2,4} x {1e-20,1e-3,0.1,5,1e6}, staircase landscape with n = 4000 parameters, optimiser runs with consecutive seeds pooled until the trial target is reached (quick 5e4, thorough 1.5e6 per scenario); scenario i >= S: one clause run on a general landscape with a temperature that is constant by construction. Non-trivial: (frequency) both accepted and rejected downhill trials observed; (clause) accepted and rejected moves, or invalid/clamped proposals. Distinct: distinct history hashes (frequency: hash over all pooled runs).".into()
     }
     fn runs(&self, tier: Tier) -> u64 {
         c07_stat_scenarios(tier)
@@ -339,14 +339,17 @@ struct LoopStat {
 
 impl C18 {
     fn gen(&self, rng: &mut Rng, tier: Tier, i: u64) -> J {
-        let loops = *rng.pick(&[1u64, 2, 3, 5, 10, 20]);
-        let inner = *rng.pick(&[25u64, 50, 100]);
+        // every 4th scenario: very short inner loops and many of them (the step-size adaptation and
+        // the cooling then interleave after almost every proposal)
+        let short = i % 4 == 3;
+        let loops = if short { *rng.pick(&[30u64, 60, 100]) } else { *rng.pick(&[1u64, 2, 3, 5, 10, 20]) };
+        let inner = if short { *rng.pick(&[1u64, 1, 2, 3]) } else { *rng.pick(&[25u64, 50, 100]) };
         let steps = loops * inner + if rng.chance(0.3) { rng.below(inner) } else { 0 };
         let kt_start = *rng.pick(&[0.1, 0.1, 1.0, 0.01, 0.0]);
         // which schedule request
         let (kt_finish, kt_ratio): (Option<f64>, Option<f64>) = match (i % 4, kt_start == 0.0) {
             (_, true) => *rng.pick(&[(Some(1e-3), None), (None, Some(0.3)), (None, None), (Some(0.0), None)]),
-            (0, _) => (Some(kt_start * *rng.pick(&[0.01, 0.1, 0.5])), None),
+            (0, _) | (3, _) => (Some(kt_start * *rng.pick(&[0.01, 0.1, 0.5])), None),
             (1, _) => (None, Some(*rng.pick(&[0.0, 0.1, 0.3, 0.5]))),
             (2, _) => (Some(kt_start * *rng.pick(&[0.01, 0.1, 2.0])), None),
             _ => *rng.pick(&[(None, None), (None, Some(0.3)), (Some(kt_start * 0.01), Some(0.2))]),
@@ -390,7 +393,7 @@ impl Check for C18 {
         "C18"
     }
     fn rule(&self) -> String {
-        "scenario i: (kt_start, kt_finish | kt_ratio | neither, L in {1,2,3,5,10,20} inner loops of 50..200 steps, non-multiples included) from splitmix(VERIF_SEED,'C18',i); staircase landscape with n = 2*steps parameters and a ladder of rung sizes d spanning the expected temperatures; optimiser runs with consecutive seeds are pooled until every loop has the target number of exact-d downhill trials. Per (loop, rung) the acceptance frequency gives a Hoeffding interval for kT. Non-trivial: at least one (loop, rung) cell with both accepted and rejected trials (or, for kt_start = 0, at least 1000 downhill trials). Distinct: hash over all pooled histories.".into()
+        "scenario i: (kt_start, kt_finish | kt_ratio | neither, L in {1,2,3,5,10,20} inner loops of 25..100 steps or L in {30,60,100} loops of 1..3 steps, non-multiples included) from splitmix(VERIF_SEED,'C18',i); staircase landscape with n = 2*steps parameters and a ladder of rung sizes d spanning the expected temperatures; optimiser runs with consecutive seeds are pooled until every loop has the target number of exact-d downhill trials. Per (loop, rung) the acceptance frequency gives a Hoeffding interval for kT. Non-trivial: at least one (loop, rung) cell with both accepted and rejected trials (or, for kt_start = 0, at least 1000 downhill trials). Distinct: hash over all pooled histories.".into()
     }
     fn runs(&self, tier: Tier) -> u64 {
         match tier {
@@ -640,7 +643,7 @@ const C20_LENS: [u64; 9] = [0, 1, 2, 3, 7, 10, 100, 1000, 1050];
 
 pub fn gen_c20_e1(rng: &mut Rng, _tier: Tier) -> J {
     let ps = gen_params(rng, &[(1, 1), (2, 3), (3, 3), (6, 3), (64, 1)]);
-    let ls = gen_land_general(rng);
+    let ls = gen_land_general(rng, false);
     let steps = *rng.pick(&C20_LENS);
     let inner = if rng.chance(0.8) { *rng.pick(&C20_LENS) } else { rng.range_u64(1, 40) };
     let kt_start = *rng.pick(&[0.0, 0.0, 1e-3, 0.1, 5.0]);
